@@ -6,6 +6,13 @@
 // (mem::replace), A-im (Index / IndexMut of im::HashMap).  The rest are open spec functions and proved lemmas; the
 // vocabulary copied from other slices / shims says where it comes from; env/train_formation_update_shim.vs is
 // included (module `tfu`), not copied.
+// NOT HERE (yet): the vocabulary of the preconditions / postconditions spawn_vehicle_for_path got from the verified contracts
+// of find_best_start_depot_for_spawning / find_best_end_depot_for_despawning (Network::start_depots_ok, Schedule::{sp_can_spawn,
+// usage_counts_small, some_depot_has_room, best_start_depot, depot_limits_hold}, Network::nearest_end_depot, dist_le, …; text
+// copied from env/depot_choice_shim.vs).  It sits in slices/spawn_vehicle.vs: its first part (Depot::sp_capacity_for,
+// Network::{has_depot, sp_depot, sp_depot_idx_of}, spawned_of_type, spawned_counts, spawned_total) is defined with the same text
+// in env/add_path_shim.vs, which slices/add_path.vs includes next to this file (duplicate definitions).  Slices that stub
+// spawn_vehicle_for_path with its full contract need that block moved here and the copy in env/add_path_shim.vs dropped.
 use vstd::std_specs::cmp::OrdSpec;
 
 // A-display: `{}` of a VehicleTypeIdx (derive_more Display of the repository; a no-op outside verus!)
